@@ -29,7 +29,7 @@ SelectMinimal == (c.k = "send") =>
 (* a transaction that fails a clause is rejected by SendClause (non-vacuity of the predicate) *)
 TamperDetected == (c.k = "send" /\ Feasible) =>
     LET t == SendBuild(U, P)
-        t2 == [t EXCEPT !.outs[1].value = Sat8(NSub(Requested(U, P), P.fee) + 1)]
+        t2 == [t EXCEPT !.outs[1].value = Sat8(NSub(Requested(U, P), P.fee) + 2)]
         t3 == [t EXCEPT !.ins[1].vout = <<9, 9, 9, 9>>]
     IN SendClause(t2, U, P) # "ok" /\ SendClause(t3, U, P) # "ok"
 
